@@ -10,6 +10,7 @@ import (
 	"sort"
 	"strings"
 	"sync"
+	"time"
 
 	"verifharness/gen"
 )
@@ -54,9 +55,14 @@ func Setup(mode string) *Env {
 	if p, err := filepath.EvalSymlinks(work); err == nil {
 		work = p
 	}
+	t0 := time.Now()
 	bin, err := BuildTool(work)
 	must(err)
-	return &Env{Work: work, Bin: bin, Mode: mode, Tmpls: MakeTemplates(filepath.Join(work, "tmpl"), 3)}
+	Phase("build-tool", t0)
+	t0 = time.Now()
+	tm := MakeTemplates(filepath.Join(work, "tmpl"), 3)
+	Phase("templates", t0)
+	return &Env{Work: work, Bin: bin, Mode: mode, Tmpls: tm}
 }
 
 // Parallel runs n jobs on k workers; job i returns its cases; cases are emitted in job order.
@@ -184,4 +190,9 @@ func Cleanup(env *Env) {
 		return
 	}
 	os.RemoveAll(env.Work)
+}
+
+// Phase prints how long a phase of the harness took (stderr; shows up in .work/Cxx/log.txt).
+func Phase(name string, since time.Time) {
+	fmt.Fprintf(os.Stderr, "phase %s: %.1fs\n", name, time.Since(since).Seconds())
 }
